@@ -21,6 +21,21 @@ def q(name, owner, here):
 
 def render(c, root):
     files = {}
+    tp = c["tp"]
+    builtin = tp in ("int32", "vec")
+
+    def ty(here):
+        return {"int32": "int32", "vec": "Vec[int32]"}[tp] if builtin else q("T", tp, here)
+
+    def value(here):
+        if tp == "int32":
+            return "1"
+        if tp == "vec":
+            return "mkvec()"
+        if c["useform"] == "assoc":
+            return ty(here) + "::mk()"
+        return ty(here) + " { v: 1 }"
+
     for p in ("Main", "A", "B"):
         decl = p
         if p == "A" and c["misnamedA"]:
@@ -28,14 +43,18 @@ def render(c, root):
         L = [f"package {decl}"]
         for d in sorted(c["imports"][p]):
             L.append(f"import {d}")
-        if c["tp"] == p:
+        if tp == p:
             L.append("struct T { v: int32 }")
+            L.append("impl T { fn mk() -> T { T { v: 1 } } }")
         if c["rp"] == p:
             L.append("trait R { fn m(Self) -> int32; }")
         if p in c["impls"]:
-            L.append(f"impl {q('R', c['rp'], p)} for {q('T', c['tp'], p)} {{ fn m(self: {q('T', c['tp'], p)}) -> int32 {{ self.v + {K[p] * 100} }} }}")
+            recv = {"int32": "self", "vec": "vec_len(self)"}.get(tp, "self.v")
+            L.append(f"impl {q('R', c['rp'], p)} for {ty(p)} {{ fn m(self: {ty(p)}) -> int32 {{ {recv} + {K[p] * 100} }} }}")
         if c["up"] == p:
-            L.append(f"fn use_it() -> int32 {{ {q('R', c['rp'], p)}::m({q('T', c['tp'], p)} {{ v: 1 }}) }}")
+            if tp == "vec":
+                L.append("fn mkvec() -> Vec[int32] { let v: Vec[int32] = vec_new(); vec_push(v, 7) }")
+            L.append(f"fn use_it() -> int32 {{ {q('R', c['rp'], p)}::m({value(p)}) }}")
         if p == "Main":
             body = "let _ = string_println(int32_to_string(use_it()));" if c["up"] == "Main" else \
                    (f"let _ = string_println(int32_to_string({c['up']}::use_it()));" if c["up"] in c["imports"]["Main"] else 'let _ = string_println("none");')
@@ -81,17 +100,17 @@ def run(tier, rep):
     if not tlc_ok(r, "Coherence"):
         rep.violation(f"model:Coherence:{r.violated}", {"trace": r.trace[-1:]})
     configs = r.json_prints("CONFIG")
-    if len(configs) < 10000:
+    if len(configs) < 100000:
         raise ToolError("Coherence emitted too few configurations")
     by = {}
     for c in configs:
-        by.setdefault(tuple(sorted(c["viol"])), []).append(c)
+        by.setdefault((tuple(sorted(c["viol"])), c["tp"] in ("int32", "vec"), c["useform"]), []).append(c)
     chosen = []
     per = 60 if tier == "quick" else 100000
     for cls, cs in sorted(by.items()):
         rnd.shuffle(cs)
-        disc = any(x in ("missing", "mismatch", "cycle") for x in cls)
-        chosen += cs[:(per // 3 if disc and tier == "quick" else per)]
+        disc = any(x in ("missing", "mismatch", "cycle") for x in cls[0])
+        chosen += cs[:(per // 10 if disc and tier == "quick" else per // 3 if tier == "quick" else per)]
         if tier == "thorough" and disc:
             chosen = chosen  # discovery classes are large and uniform; all are kept in thorough as well
     root = workdir("c16")
@@ -113,7 +132,7 @@ def run(tier, rep):
         a = c["compile"]
         key = "+".join(sorted(exp)) or "ok"
         classes[key] = classes.get(key, 0) + 1
-        ident_cfg = f"viol={key}:tp={cfg['tp']}:rp={cfg['rp']}:impls={'+'.join(sorted(cfg['impls'])) or '-'}:up={cfg['up']}"
+        kind = ("builtin-type" if cfg["tp"] in ("int32", "vec") else "struct") + ":" + cfg["useform"]
         if a["verdict"] in ("panic", "timeout"):
             rep.violation(f"crash:{a.get('at')}", {"config": cfg, "msg": a.get("msg")}, replay={"config": cfg})
             continue
@@ -130,14 +149,14 @@ def run(tier, rep):
             g = c.get("sem")
             if cfg["up"] in cfg["reach"] and g and g["status"] == "ok":
                 loaded = [p for p in cfg["impls"] if p in cfg["reach"]]
-                want = ("none\n" if not (cfg["up"] == "Main" or cfg["up"] in cfg["imports"]["Main"]) else f"{1 + K[loaded[0]] * 100}\n").encode()
+                want = ("none\n" if not (cfg["up"] == "Main" or cfg["up"] in cfg["imports"]["Main"]) else f"{1 + K[loaded[0]] * 100}\n").encode()   # T.v = 1, int32 value 1, vec of length 1
                 if g["out"] != want:
                     rep.violation("accepted-project-wrong-implementation", {"config": cfg, "expected": want.decode(), "got": g["out"].decode("utf-8", "replace")}, replay={"config": cfg})
                     continue
             agree += 1
         else:
             if a["verdict"] == "ok":
-                rep.violation(f"accepted-illegal-project:{key}", {"config": cfg, "source_main": open(c["path"]).read()}, replay={"config": cfg})
+                rep.violation(f"accepted-illegal-project:{key}:{kind}", {"config": cfg, "source_main": open(c["path"]).read()}, replay={"config": cfg})
                 continue
             got = classify_diags(a.get("diags", []))
             known = {g for g in got if not g.startswith("other:")}
